@@ -57,9 +57,9 @@ type Finding struct {
 // WorkerReport is the last line a worker writes.
 type WorkerReport struct {
 	Stats      *Stats   `json:"stats"`
-	Digests    []uint64 `json:"digests"`    // content hashes of non-trivial cases
-	Traces     int      `json:"traces"`     // distinct E2 interleavings seen by this worker
-	TraceSet   []uint64 `json:"traceset"`   // (capped) interleaving hashes for cross-worker union
+	Digests    []uint64 `json:"digests"`  // content hashes of non-trivial cases
+	Traces     int      `json:"traces"`   // distinct E2 interleavings seen by this worker
+	TraceSet   []uint64 `json:"traceset"` // (capped) interleaving hashes for cross-worker union
 	Samples    []*Case  `json:"samples"`
 	FixedDone  int      `json:"fixed_done"`
 	SeededDone int      `json:"seeded_done"`
@@ -232,7 +232,7 @@ func WorkerMain(t *testing.T, p *Prop, seed uint64, tier string, shard, shards i
 			return
 		}
 		b, _ := json.Marshal(&Finding{Case: c, Viol: viol, Ref: ref, Race: RaceEnabled})
-		w.Write(b)       //nolint:errcheck
+		w.Write(b)        //nolint:errcheck
 		w.WriteByte('\n') //nolint:errcheck
 		w.Flush()
 	}
@@ -316,7 +316,7 @@ func WorkerMain(t *testing.T, p *Prop, seed uint64, tier string, shard, shards i
 	}
 	rep.WallS = time.Since(start).Seconds()
 	b, _ := json.Marshal(map[string]any{"report": rep})
-	w.Write(b)       //nolint:errcheck
+	w.Write(b)        //nolint:errcheck
 	w.WriteByte('\n') //nolint:errcheck
 	return 0
 }
